@@ -296,7 +296,8 @@ def run_check(prop, args, seed, t0):
         known_cases = {}
         for e in active:
             if e.get("bounded_check"):
-                known_cases.setdefault(e["bounded_check"], []).append(e["case"])
+                known_cases.setdefault(e["bounded_check"], []).append(
+                    {"case": e["case"], "region": e.get("region")})
         bjobs.append(("@bounded", prop, tier, seed, known_cases))
     ctx = multiprocessing.get_context("fork")
     with ctx.Pool(min(args.jobs, max(1, len(sjobs) + len(bjobs)))) as pool:
@@ -522,9 +523,11 @@ def run_check(prop, args, seed, t0):
         if os.environ.get("PYVC_STRICT"):
             return 2
         return 0 if all(b["passed"] for b in bounded) and bounded else 2
-    if n_obl == 0 and not extra_cov:
-        say("UNDECIDED: no obligations generated")
+    if n_obl == 0 and not extra_cov and not bounded:
+        say("UNDECIDED: nothing was checked")
         return 2
+    if n_obl == 0:
+        say("note: no proof obligations for %s yet: bounded stand-ins only (evidence level: other)" % prop)
     return 0
 
 
